@@ -30,7 +30,7 @@ def tasks(tier):
 
 
 def conformance(tier):
-    return [dict(name="native:c08", argv=["c08_graphs.py"], violation_on_fail=True), dict(name="native:c09", argv=["c09_rewrite.py", tier], violation_on_fail=True), dict(name="native:c14", argv=["c14_types.py"], violation_on_fail=True)]
+    return [dict(name="native:c08", argv=["c08_graphs.py"], violation_on_fail=True), dict(name="native:c09", argv=["c09_rewrite.py", tier], violation_on_fail=True), dict(name="native:c14", argv=["c14_types.py"], violation_on_fail=True), dict(name="native:names", argv=["names_seed.py"], violation_on_fail=True)]
 
 
 def concretise(obname, detail, task_result, native):
